@@ -1,7 +1,11 @@
 //! Shared generators.
 pub mod abv;
 pub mod batch;
+<<<<<<< HEAD
 pub mod kpn;
+=======
+pub mod matchgen;
+>>>>>>> agent-match
 pub mod prog;
 pub mod srccase;
 pub mod textmut;
